@@ -22,7 +22,7 @@ SCAL_N = ["null", "true", "false", "0", "1", "2", "-1", "10", "1.5", "2.0", "a",
 SCAL_U = ['"a"', '"b"', '"ab"', '"abc"', '"5"', '"x y"', '""', "1.5", "2.0", "0.5", "0x1", "0x2", "0xa", "1_0",
           "'{[1]: 2}'", "'(1,)'", "'[1'"]     # strings that merely resemble Python literals
 SET_MEMBERS = ["a", "b", "ab", "c"]
-ESCAPABLE = list(". / [ ] ( ) ' \" ^ $ % &".split()) + [" "]      # & matters as a key's first character only (\\&)
+ESCAPABLE = list(". / [ ] ( ) ' \" ^ $ % & \\".split()) + [" "]      # & matters as a key's first character only (\\&); a backslash is data too
 
 
 def render(t):
